@@ -33,6 +33,21 @@ def run(chk, facts_dir, tier):
     chk.analysed(ab.path)
     ev = Ev(prog, ab)
     waits = calls(ab, "tokio::sync::watch::Receiver::<T>::wait_for")
+    wait_body, wait_ev = ab, ev
+    helper_wait = None
+    if not waits:
+        # the wait may have been extracted into a private async helper: `full_append.wait_until_synced().await?`
+        for bi, t in ab.calls():
+            hp = ab.callee(t) or ab.callee_decl(t) or ""
+            hc = prog.bodies.get(hp + "::{closure#0}")
+            if hc is None or hc.path == ab.path:
+                continue
+            hw_ = calls(hc, "tokio::sync::watch::Receiver::<T>::wait_for")
+            if len(hw_) == 1:
+                hoks = [x for x, _ in ok_return_blocks(hc)]
+                if hoks and not must_pass(hc, hoks, [hw_[0][0]]):
+                    helper_wait = (hc, hw_[0])
+                    waits = [(bi, t)]
     if not waits:
         chk.fail("R1.1", WTP + "WriterThreadPool::append_events", "ok-without-wait", "append_events no longer waits for the synced offset before "
                  "acknowledging: the append is acknowledged before it is fsynced and indexed", ab)
@@ -53,12 +68,20 @@ def run(chk, facts_dir, tier):
                      "(wait_for %s)" % ("bypassed" if bad else "not awaited/checked"), ab, s["line"])
         else:
             chk.ok("R1.1", "Ok return passes wait_for and its `?`", ab.where(s["line"]))
-    cl = strip(ev.operand(wt["args"][1], (wb, "T")))
+    if helper_wait is not None:
+        wait_body, (pwb, pwt) = helper_wait
+        wait_ev = Ev(prog, wait_body)
+        chk.analysed(wait_body.path)
+        cl = strip(wait_ev.operand(pwt["args"][1], (pwb, "T")))
+    else:
+        cl = strip(ev.operand(wt["args"][1], (wb, "T")))
     cls = Classifier(prog, lambda t: False, lambda t: False)
     okp = False
     desc = "?"
     if cl[0] == "agg" and cl[1].startswith("closure:"):
         ret = strip(cls.closure_return(cl[1].split(":", 1)[1]))
+        if helper_wait is not None and ret[0] == "bin":
+            ret = ("bin", ret[1], resolve_upvars(prog, ret[2], wait_body), resolve_upvars(prog, ret[3], wait_body)) + tuple(ret[4:])
         desc = show(ret)
         if ret[0] == "bin" and ret[1] == "Ge" and strip(ret[2])[0] == "param" and has_field(ret[3], "write_offset", "FullAppendResult"):
             okp = True
